@@ -15,8 +15,31 @@ def cz(n):
     return f'({n})' if n < 0 else str(n)
 
 
+def pack(text):
+    '''9 ASCII characters per 63-bit integer, 7 bits each, first character in
+    the low bits (decoded by Exec.U; U_selftest there pins the format).'''
+    data = text.encode('ascii')
+    if not all(0 < c < 128 for c in data):
+        raise ValueError(f'pack: not plain ASCII: {text!r}')
+    out = []
+    for k in range(0, len(data), 9):
+        value = 0
+        for i, c in enumerate(data[k:k + 9]):
+            value |= c << (7 * i)
+        out.append(value)
+    return out
+
+
+PACK_SAMPLES = {'': [], 'a': [97], '12345678': [31768959712549169],
+                '123456789': [4139051819874441521],
+                '1234567890': [4139051819874441521, 48]}
+
+
 def cstr(text):
-    return common.cstr(text)[:-len('%string')]
+    ints = pack(text)
+    if not ints:
+        return '(U [])'
+    return '(U [' + '; '.join(str(v) for v in ints) + ']%uint63)'
 
 
 def cfloat(value):
